@@ -103,7 +103,7 @@ func runWorker(cfg workerCfg) int {
 				wd := filepath.Dir(cfg.out)
 				if alone, err := execPlanFresh(wd, plan, cfg.prop); err == nil {
 					wo.Counters["pristine_process_comparisons"]++
-					if alone.Digest != res.Digest {
+					if alone.Digest != res.Digest && alone.Digest != "free-mode" && res.Digest != "free-mode" {
 						res.Violations = append(res.Violations, Violation{Property: cfg.prop, Oracle: ho, Site: "history",
 							Detail: "plan result differs between a pristine process and this worker, which ran other plans first", Plan: plan})
 					}
@@ -863,9 +863,12 @@ func confirmHistory(cfg driveCfg, v Violation) (Violation, bool, string) {
 	if err != nil {
 		return v, false, err.Error()
 	}
+	if alone.Digest == "free-mode" {
+		return v, false, "the solo run was not serialised (free-running fallback); no comparison possible"
+	}
 	differs := func(pre []json.RawMessage) bool {
 		rr, err := execSeqFresh(cfg.workdir, pre, v.Plan, cfg.prop)
-		return err == nil && rr.Digest != alone.Digest
+		return err == nil && rr.Digest != alone.Digest && rr.Digest != "free-mode"
 	}
 	prefix := v.Prefix
 	if !differs(prefix) {
@@ -970,6 +973,9 @@ func selfTest(cfg driveCfg, n int) (st SelfTest) {
 			continue
 		}
 		for i := range ls {
+			if strings.Contains(ls[i], " free-mode ") || strings.Contains(ref[i], " free-mode ") {
+				continue // a run that fell back to free-running (a lock held across a scheduling point, or an overloaded machine) is not comparable
+			}
 			if ls[i] != ref[i] {
 				st.Mismatches++
 				if st.Error == "" {
@@ -1017,6 +1023,9 @@ func isolatedTest(cfg driveCfg, n int, ref []string, st *SelfTest) {
 	sort.Slice(got, func(i, j int) bool { return got[i].idx < got[j].idx })
 	st.Isolated = len(got)
 	for _, g := range got {
+		if strings.Contains(g.line, " free-mode ") || (g.idx < len(ref) && strings.Contains(ref[g.idx], " free-mode ")) {
+			continue
+		}
 		if g.idx < len(ref) && strings.TrimSpace(ref[g.idx]) != g.line {
 			st.HistoryMismatches++
 			if ho := historyOracle[cfg.prop]; ho != "" && len(st.historyViolations) == 0 {
